@@ -2253,8 +2253,11 @@ impl<'store> AnnotationStore {
                         }
                     }
 
+                    //(an item may be in several result rows: it is removed once)
                     for resource in remove_resources {
-                        self.remove(resource)?;
+                        if self.has(resource) {
+                            self.remove(resource)?;
+                        }
                     }
                     for annotation in remove_annotations {
                         //(an earlier removal may have taken this one along already:
@@ -2264,13 +2267,19 @@ impl<'store> AnnotationStore {
                         }
                     }
                     for (set, key) in remove_keys {
-                        self.remove_key(set, key, true)?;
+                        if self.get(set).map(|dataset| dataset.has(key)).unwrap_or(false) {
+                            self.remove_key(set, key, true)?;
+                        }
                     }
                     for (set, data) in remove_data {
-                        self.remove_data(set, data, true)?;
+                        if self.get(set).map(|dataset| dataset.has(data)).unwrap_or(false) {
+                            self.remove_data(set, data, true)?;
+                        }
                     }
                     for dataset in remove_datasets {
-                        self.remove(dataset)?;
+                        if self.has(dataset) {
+                            self.remove(dataset)?;
+                        }
                     }
 
                     //just return an empty iterator
